@@ -163,9 +163,10 @@ class ExplorerScriptSsbDecompiler:
 
             return self._output, self.smb.build()
 
-        except AssertionError:
-            # If an assertion failed, then either there is a bug in the decompiler or the script is not valid, ie.
-            # has no ending opcode at the end of routines. Try to fallback to SsbScript.
+        except Exception:
+            # If an assertion failed or any other error occurred, then either there is a bug in the decompiler or the
+            # script is not valid, ie. has no ending opcode at the end of routines, or has a control flow that the
+            # write handlers can not express. Try to fallback to SsbScript.
             self._routine_ops = raw_routine_backup_ops
             logger.warning("Failed to decompile. Falling back to SsbScript...")
             prefix = "//?: is-ssb-script: true\n"
